@@ -528,33 +528,10 @@ def r34_transdir(repo, sink):
         sink.bad("R34", "transform:incompatible", gt, "get_transform_to returns a transform for incompatible grids")
     except Raised as r:
         sink.check(r.name == "ValueError", "R34", "transform:incompatible", gt, ok="incompatible grids raise ValueError", bad=f"raises {r.name}")
-    # direction at the call site
-    ex = repo.method("Input", "exchange_info")
-    cs = [x for x in calls(ex.node, "get_transform_to")]
-    ok = False
-    if len(cs) == 1 and isinstance(cs[0].func, ast.Attribute):
-        recv, arg = U(cs[0].func.value), U(cs[0].args[0]) if cs[0].args else ""
-        src_var = None
-        for n in fn_walk(ex.node):
-            if isinstance(n, ast.Assign) and isinstance(n.value, ast.Call) and call_name(n.value) == "get_info":
-                src_var = n.targets[0].id if isinstance(n.targets[0], ast.Name) else None
-        ok = src_var is not None and recv == f"{src_var}.grid" and arg == "self._input_info.grid"
-        st = cs[0]
-        while not isinstance(st, ast.stmt):
-            st = st._parent
-        ok = ok and isinstance(st, ast.Assign) and any(self_attr(t) == "_transform" for t in st.targets)
-    sink.check(ok, "R34", "transform:direction", ex, ok="self._transform = <delivered grid>.get_transform_to(<merged input grid>)",
-               bad="Input.exchange_info does not take the transform from the delivered (source) grid to its own merged grid")
-    # merged info: consumer's time, grid and meta win where set (use_none=False)
-    cw = [x for x in calls(ex.node, "copy_with")]
-    ok = False
-    if cw:
-        kws = {k.arg: U(k.value) for k in cw[0].keywords}
-        star = [U(k.value) for k in cw[0].keywords if k.arg is None]
-        ok = kws.get("use_none") == "False" and kws.get("time") == "info.time" and kws.get("grid") == "info.grid" and "info.meta" in star
-        ok = ok and isinstance(cw[0].func, ast.Attribute) and U(cw[0].func.value).endswith("_info") is not None
-    sink.check(ok, "R34", "merge:fields", ex, ok="input info = delivered info overridden by the consumer's set time / grid / meta",
-               bad="Input.exchange_info does not merge delivered and requested info field by field (use_none=False, time, grid, **meta)")
+    # direction and merge at the call site: the abstract exchange table (rules/exchange.py) decides that the transform goes from the
+    # delivered grid to the input's merged grid and that requested fields win where set
+    from . import exchange
+    exchange.run(repo, sink, (exchange.r16x_input_exchange,))
 
 
 class _TransInterp(_LayoutInterp):
